@@ -78,6 +78,7 @@ Calls ==
     Call("setmulti", <<>>, "l", 0, "", <<"x","3">>),    Call("setmulti", <<>>, "sl", 0, "", <<"a","b">>),
     Call("setmulti", <<>>, "i", 0, "", <<"5">>),        Call("setmulti", <<>>, "i", 0, "", <<"x">>),
     Call("setmulti", <<>>, "zz", 0, "", <<"5">>),
+    Call("setmulti", <<>>, "s", 0, "", <<"w">>),        \* (s carries an annotation after the pre-text)
     Call("setopt", <<>>, "i", 0, "5", <<>>),    Call("setopt", <<>>, "i", 0, "x", <<>>),
     Call("setopt", <<>>, "l", 0, "7", <<>>),    Call("setopt", <<>>, "l", 0, "x", <<>>),
     Call("setopt", <<>>, "b", 0, "maybe", <<>>),
